@@ -6,7 +6,11 @@ Driver of C16.  Abstract cases:
   listing nsup { code name } nrec { name niso { iso } recog meth org src codes refs nmore { reference } }
           nprose { line } blank indent afterHeading tableGaps afterTable gaps finalNewline
       → request `rebase_parse <text>` with `<text> = Spec.RebaseListing.listing sups recs ℓ`
-  raw <text>          → request `rebase_parse <text>` (probes outside the quantifier; never judged)
+  raw <text>          → request `rebase_parse <text>` (probes outside the quantifier; judged only when the call
+                        hangs, crashes or panics where the model predicts a normal return)
+  rawhex <hex>        → request `rebase_parse_hex <hex>`: bytes that need not be UTF-8 (no model: recorded only)
+  import { token }    → request `rebase_import <json>`: the JSON text of the value given by the tokens is read by
+                        json.Unmarshal into map[string]Enzyme and compared with the model's `importJ`
   file <name>         → request `rebase_file <name>`: the sample file shipped with the package; the reply
                         carries the file's text, which is re-rendered through `unlayout`/`listing`
   readmissing <x>     → request `rebase_read_missing <x>`
@@ -85,6 +89,80 @@ def report (m : Outcome (List (Str × Enzyme))) : List String :=
     "ok" :: showEntries m ++ ["read-same", "json-same", toString toks.length] ++ toks
   | _ => ["panic"]
 
+/-! ### JSON values from tokens, JSON text (for the `import` cases) -/
+
+mutual
+/-- one value from the token stream (fuel = number of tokens is enough) -/
+def readJ : Nat → List String → Option (JVal × List String)
+  | 0, _ => none
+  | f + 1, t :: r =>
+    if t == "null" then some (.null, r)
+    else if t == "[" then (readItems f r).map fun (xs, r') => (.arr xs, r')
+    else if t == "{" then (readFields f r).map fun (xs, r') => (.obj xs, r')
+    else if t.startsWith "s:" then some (.str (t.toList.drop 2), r)
+    else none
+  | _, [] => none
+def readItems : Nat → List String → Option (List JVal × List String)
+  | 0, _ => none
+  | f + 1, t :: r =>
+    if t == "]" then some ([], r)
+    else match readJ f (t :: r) with
+      | some (v, r') => (readItems f r').map fun (vs, r'') => (v :: vs, r'')
+      | none => none
+  | _, [] => none
+def readFields : Nat → List String → Option (List (Str × JVal) × List String)
+  | 0, _ => none
+  | f + 1, t :: r =>
+    if t == "}" then some ([], r)
+    else if t.startsWith "s:" then
+      match readJ f r with
+      | some (v, r') => (readFields f r').map fun (vs, r'') => (((t.toList.drop 2), v) :: vs, r'')
+      | none => none
+    else none
+  | _, [] => none
+end
+
+def hexDigit (n : Nat) : Char := if n < 10 then Char.ofNat (48 + n) else Char.ofNat (87 + n)
+
+def jsonStr (s : Str) : Str :=
+  '"' :: s.flatMap (fun c =>
+    if c == '"' then ['\\', '"'] else if c == '\\' then ['\\', '\\']
+    else if c.toNat < 32 then ['\\', 'u', '0', '0', hexDigit (c.toNat / 16), hexDigit (c.toNat % 16)]
+    else [c]) ++ ['"']
+
+mutual
+def jsonText : JVal → Str
+  | .null => "null".toList
+  | .str s => jsonStr s
+  | .arr xs => '[' :: jsonItems xs ++ [']']
+  | .obj fs => '{' :: jsonFields fs ++ ['}']
+def jsonItems : List JVal → Str
+  | [] => []
+  | [v] => jsonText v
+  | v :: r => jsonText v ++ ',' :: jsonItems r
+def jsonFields : List (Str × JVal) → Str
+  | [] => []
+  | [(k, v)] => jsonStr k ++ ':' :: jsonText v
+  | (k, v) :: r => jsonStr k ++ ':' :: jsonText v ++ ',' :: jsonFields r
+end
+
+def decodeJ (toks : List String) : Option JVal :=
+  match readJ (toks.length + 1) toks with
+  | some (v, []) => some v
+  | _ => none
+
+/-- a reply that says the library call did not come back normally: harness status `timeout`, `crash`,
+`race`, `panic`, `err`, a missing reply, or a recovered panic of Parse (`ok panic`) -/
+def abnormal (out : List String) : Bool :=
+  match out with
+  | "ok" :: rest => rest.head? == some "panic"
+  | _ => true
+
+/-- verdict on a case OUTSIDE the quantifier: nothing is demanded of the result, but a call that hangs,
+crashes or panics where the model predicts a normal return is a failure all the same -/
+def outsideVerdict (same : Bool) (out : List String) : Option Bool :=
+  if abnormal out && !same then some false else none
+
 def render (c : List String) : List String :=
   match c with
   | "listing" :: r =>
@@ -92,6 +170,11 @@ def render (c : List String) : List String :=
     | some (sups, recs, ℓ) => ["rebase_parse", str (listing sups recs ℓ)]
     | none => ["bad"]
   | ["raw", text] => ["rebase_parse", text]
+  | ["rawhex", hex] => ["rebase_parse_hex", hex]
+  | "import" :: toks =>
+    match decodeJ toks with
+    | some v => ["rebase_import", str (jsonText v)]
+    | none => ["bad"]
   | ["file", name] => ["rebase_file", name]
   | ["readmissing", x] => ["rebase_read_missing", x]
   | _ => ["bad"]
@@ -111,19 +194,38 @@ def judge (c out : List String) : Verdict :=
     | some (sups, recs, ℓ) =>
       let m := "ok" :: report (parse (listing sups recs ℓ))
       let inDom := wfListing sups recs ℓ
-      -- spec: the entries are those the listing denotes; Read and the JSON round trip agree
+      -- spec: the entries are those the listing denotes (every field as written); Read and the JSON round trip agree
       let want := report (.ok (expectedMap sups recs))
       let j := out == "ok" :: want
+      -- the known finding: the reply is exactly the denoted map with `[""]` for every empty <2>
+      let quirk := !j && emptyIsos recs && out == "ok" :: report (.ok (readMap sups recs))
       let indentCls := if ℓ.indent.isEmpty then "noindent" else if ℓ.indent.all (· == ' ') then "spaces"
                        else if ℓ.indent.all (· == '\t') then "tabs" else "mixed"
       let triv := recs.isEmpty
-      { corr := out == m, judge := if inDom then some j else none,
+      { corr := out == m, judge := if inDom then some j else outsideVerdict (out == m) out,
         cls := (if triv then "triv:" else "") ++ "listing/" ++ sizeClass recs.length ++ "/" ++ indentCls
-               ++ (if recs.any (fun r => !r.codes.isEmpty) then "/decoded" else ""),
+               ++ (if recs.length > 256 then "/over256" else "")
+               ++ (if recs.any (fun r => !r.codes.isEmpty) then "/decoded" else "")
+               ++ (if quirk then "/kf:C16-empty-isoschizomers" else ""),
         detail := if out == m && (j || !inDom) then "" else lineOf ((m.take 40)) }
   | ["raw", text] =>
     let m := "ok" :: report (parse text.toList)
-    { corr := out == m, judge := none, cls := "raw", detail := if out == m then "" else lineOf (m.take 40) }
+    { corr := out == m, judge := outsideVerdict (out == m) out, cls := "raw", detail := if out == m then "" else lineOf (m.take 40) }
+  | ["rawhex", _] =>
+    -- bytes, not text: there is no model; what json.Marshal/Unmarshal make of them is recorded in the class
+    { corr := true, judge := if abnormal out then some false else none,
+      cls := "rawhex/" ++ (if out.contains "json-same" then "json-same" else if out.contains "json-diff" then "json-diff" else "other"),
+      detail := "" }
+  | "import" :: toks =>
+    match decodeJ toks with
+    | none => { corr := false, judge := none, cls := "bad-case", detail := "bad case" }
+    | some v =>
+      let m := match importJ v with
+        | some mp => "ok" :: "ok" :: showEntries mp
+        | none => ["ok", "unmarshal-error"]
+      -- the clause "the export parses back": Go's Unmarshal agrees with the value-level reader the theorem is about
+      { corr := out == m, judge := some (out == m), cls := "import/" ++ (if (importJ v).isSome then "ok" else "error"),
+        detail := if out == m then "" else lineOf (m.take 40) }
   | ["file", _] =>
     match out with
     | "ok" :: text :: rest =>
@@ -133,9 +235,11 @@ def judge (c out : List String) : Verdict :=
         let isListing := listing sups recs ℓ == text.toList && wfListing sups recs ℓ
         let want := report (.ok (expectedMap sups recs))
         let j := rest == want && someDecoded (expectedMap sups recs) && namesNodup recs
+        let quirk := !j && emptyIsos recs && rest == report (.ok (readMap sups recs)) && namesNodup recs
         -- the sample must BE a listing (re-rendering gives the file back, `wfListing` holds): otherwise FAIL
         { corr := rest == m, judge := some (isListing && j),
-          cls := if isListing then "file/" ++ sizeClass recs.length ++ "/spaces/decoded" else "file/not-a-listing",
+          cls := if isListing then "file/" ++ sizeClass recs.length ++ "/spaces/decoded"
+                   ++ (if quirk then "/kf:C16-empty-isoschizomers" else "") else "file/not-a-listing",
           detail := if rest == m && isListing && j then "" else
                     (if isListing then "" else "the sample file is not `listing sups recs l` for the content the recogniser extracts; ")
                     ++ lineOf (m.take 40) }
